@@ -70,6 +70,7 @@ class Result:
     self.error_step = None
     self.instrumented_effective = None
     self.queries = []
+    self.restart_log = self.restart_rest = None
 
 
 def run_config(spec, start, script, cfg, queries=None, clock=None, keep_chart=False, run_kwargs=None):
@@ -180,6 +181,20 @@ def run_config(spec, start, script, cfg, queries=None, clock=None, keep_chart=Fa
       res.calls.append(list(run.calls_log))
       snapshot()
       do_queries(k)
+    if cfg.get('restart') is not None and host != 'ao':
+      # the same chart object is started a second time (after its trace was cleared, where the host keeps one)
+      if hasattr(chart, 'clear_trace'):
+        chart.clear_trace()
+      run.reset_logs()
+      try:
+        chart.start_at(run.fns[cfg['restart']])
+      except cg.Budget:
+        res.error, res.error_step = 'Budget', 'restart'
+        return res
+      except Exception as ex:
+        res.error, res.error_step = '%s: %s' % (type(ex).__name__, ex), 'restart'
+        return res
+      res.restart_log, res.restart_rest = list(run.log), getattr(chart, 'state_name', None)
     if host in ('queued', 'ao', 'instr') and getattr(chart, 'instrumented', False):
       res.spy_full = list(chart.full.spy)
       res.trace_records = [(t.start_state, t.signal, t.end_state) for t in chart.full.trace]
